@@ -123,6 +123,13 @@ def run_items(items: list[Item], chk: Check, *, witnesses: bool = True, max_step
                 outs.append(Outcome(it, inp, rec, e1.Match(), [], True, False, skipped="unmodelled by the specification"))
                 continue
             m = e1.match_paths(it.prog, hr, inp)
+            if rec["status"] == "discard":
+                # the input violates a vm.assume of the program: not an admissible input - nothing has to cover it, and a live
+                # path that does is a soundness failure (clause reported to the caller's judge)
+                live = [c for c in m.covering if not c.path.stuck]
+                cl = [(c.index, "covers an input that violates vm.assume") for c in live]
+                outs.append(Outcome(it, inp, rec, m, cl, bool(m.covering), False, skipped=None if cl else "input violates an assumption of the program"))
+                continue
             clauses = []
             for cov in m.covering:
                 if cov.path.stuck:
